@@ -53,6 +53,7 @@ pub fn fragment_shapes() -> Vec<Baseline> {
                 mehd: None,
                 large_moof: oi % 2 == 1,
                 offsets_only: false,
+                fillers: 0,
             };
             let init = init_nodes(&m);
             let (media, _) = media_nodes(&m);
@@ -102,6 +103,7 @@ pub fn scaling_shapes() -> Vec<Baseline> {
                 mehd: None,
                 large_moof: false,
                 offsets_only: false,
+                fillers: 0,
             };
             let mut all = init_nodes(&m);
             for f in 0..mf {
